@@ -551,6 +551,10 @@ func vfC05Check(c vfC05Case) error {
 			if s.ev.UseTLS && ev.CertEcho != "CERT-OF-"+s.ev.Identity {
 				return verifkit.Violf("wrong-certificate", "%q: request carries certificate %q, the server presented %q\n%s", name, ev.CertEcho, "CERT-OF-"+s.ev.Identity, describe())
 			}
+		} else if c.Mode == "client" && ev.ALPN != "" && !strings.HasPrefix(ev.ALPN, "error: ") &&
+			((ev.HTTPVersion == 1 && ev.ALPN == "h2") || (ev.HTTPVersion == 2 && ev.ALPN != "h2")) {
+			// the server of an HTTP/1.1 permutation does not speak HTTP/2 to a client that offers both (and the other way round)
+			return verifkit.Violf("wrong-http-version-server", "%q is an HTTP version %d permutation but the server at %s:%d, offered h2 and http/1.1 in the TLS handshake, picks %q\n%s", name, ev.HTTPVersion, ev.Host, ev.Port, ev.ALPN, describe())
 		} else if c.Mode == "client" && uint(ev.Alive) > c.MaxServers {
 			// the servers are the runner's own in-process reference servers: the client dials every address it was ever
 			// given; more listening ones than --max-servers means more server instances alive at once
